@@ -222,6 +222,12 @@ def check_normal(ctx, alphas, A_ref, y, lam, matrix, C_code, site, tag):
     scale = float(np.linalg.norm(L, 2) * np.linalg.norm(alphas) + np.linalg.norm(r))
     ctx.check("B.normal.eq", np.all(np.isfinite(alphas)) and res <= 1e-8 * max(scale, 1e-300), site, tag,
               "normal-equation residual %.3e, scale %.3e (m=%d, n=%d)" % (res, scale, m, n))
+    if lam != 0:
+        # the regularisation term itself must be part of the solved system: the residual is small compared with lambda * |M alpha| (for a tiny lambda the
+        # relative test above cannot tell the regularised solution from the plain least-squares one)
+        reg = float(lam * np.linalg.norm(Mx @ alphas))
+        ctx.check("B.normal.eq", res <= 1e-3 * reg + 1e-13 * scale, site, tag + "-regularisation-term",
+                  "normal-equation residual %.3e is not small against the regularisation term lambda*|M alpha| = %.3e (lambda=%g, scale %.3e)" % (res, reg, lam, scale))
 
 
 def run_opticom(ctx, call, scheme, option, sa):
@@ -477,7 +483,7 @@ def case_targets(ctx, case):
             Regression(np.array(X), np.array(y), case["lam"], case["matrix"], rangee=RANGE)
 
 
-LAMBDAS = (0.0, 1e-3, 0.1)
+LAMBDAS = (0.0, 1e-3, 0.1, 1e-9)      # 1e-9: a positive regularisation below numpy's default absolute tolerance (missed seed C20_9)
 
 
 @ref.single_thread
